@@ -312,6 +312,8 @@ class Scrollable(WidgetDecoration[WrappedWidget]):
             key = ow.keypress(ow_size, key)
             if key is None:
                 return None
+            # the original widget did not handle the key, so its cursor did not move: nothing to follow
+            self._old_cursor_coords = None
 
         # Handle up/down, page up/down, etc.
         command_map = self._command_map
